@@ -88,6 +88,12 @@ def check_one(desc, acc):
                 N = tuple(n for n in N0 if n != drop)
                 detour = "%s+remove_node(%r)" % (detour, drop)
             elif drop[0] == "keep":
+                if any(tuple(e) == (drop[1],) for e in h.get_edges()):
+                    # shrinking the singleton hyperedge (x,) leaves the EMPTY hyperedge () in the container: matrices of a hypergraph
+                    # with a hyperedge of size 0 are outside the property (first version of this variant raised a false alarm on a
+                    # behaviour-preserving refactoring there, DESIGN section 9)
+                    acc.count("keep-variant-skipped-empty-hyperedge")
+                    continue
                 h.remove_node(drop[1], keep_edges=True)
                 N = tuple(n for n in N0 if n != drop[1])
                 detour = "%s+remove_node(%r, keep_edges=True)" % (detour, drop[1])
